@@ -132,7 +132,7 @@ def _bnd_component(R, pid, tier, seed):
             "C07": sc in ("repro", "repro0", "repro_bad"), "C08": sc in ("reuse", "reuse2", "reuse3", "reuse_dim", "reuse_int"), "C18": sc in ("setcfg", "setcfg2"),
             "C01": sc in ("single", "reuse3", "reuse_dim"), "C02": sc in ("single", "reuse3", "reuse_dim"),
             "C03": sc in ("single", "reuse3", "reuse_dim"),
-            "C12": sc in ("duality", "duality_reuse", "duality_nan") or (sc == "single" and c.get("debug")),
+            "C12": sc in ("duality", "duality_reuse", "duality_nan", "duality_cached") or (sc == "single" and c.get("debug")),
             "C09": sc in ("single", "rejected", "noseed"), "C06": sc in ("single", "rejected", "reuse_dim", "reuse2", "reuse3", "reuse", "setcfg", "setcfg2"),
             "C10": sc in ("single", "setcfg2"), "C04": sc in ("single", "setcfg2"),
             "C11": c.get("mode") in ("thread", "process"),
@@ -142,6 +142,8 @@ def _bnd_component(R, pid, tier, seed):
             continue
         if str(c.get("scale", "")).startswith("small") and (pid not in ("C10", "C17") or r.get("exc")):
             continue        # below the documented scale: only completed runs, only the size and elitism clauses
+        if c.get("kind") == "infpen" and (pid != "C02" or r.get("exc")):
+            continue        # infinite penalties: only the truthfulness of reported costs is looked at, on completed runs
         if pid == "C12" and c["opt"] in exp["C12_excluded"]:
             continue
         if pid == "C17" and c["opt"] not in exp["elitist"] and c["opt"] not in exp.get("monotone_in_campaign_not_structural", []):
@@ -182,10 +184,12 @@ def _bnd_component(R, pid, tier, seed):
                 kq = f"BND.{pid}.{c['opt']}"
                 if pid == "C10":
                     kq += f".{sc}.x{c.get('scale')}"          # sizes: keyed by scenario and population scale
+                if pid == "C05" and c.get("kind") in bnd.INTCODED:
+                    kq += f".{c['kind']}"                     # arguments on integer-coded tasks: keyed by the encoding
                 msgs[kq] = r["monitors"][mon]
             if pid == "C12" and sc == "single" and "C02" in r.get("monitors", {}):
                 msgs[f"BND.C12.{c['opt']}.debug"] = r["monitors"]["C02"]
-            if r.get("exc") and pid in ("C07", "C08", "C18", "C12") and c.get("kind") != "nanobj":   # (an objective that is NaN
+            if r.get("exc") and pid in ("C07", "C08", "C18", "C12") and c.get("kind") not in ("nanobj", "multiobjc"):   # (an objective that is NaN
                 #                                               somewhere is outside the valid tasks: its exceptions are not looked at)
                 e = r["exc"]
                 if not _known_exc(exp, c["opt"], e, c["kind"]):
